@@ -171,6 +171,10 @@ def _tree_cases(args):
                                 cur.compress_config.max_dims[:len(cur.node_list)] = np.array(t.bond_dims, dtype=int)
                             before = trees.dense(cur, order=list(u.basis))
                             dt = -1j * tau if imag else tau
+                            if not imag and scheme != "tdvp_vmf" and (ji + ncall + ci) % 3 == 0:
+                                # a real step stored in a complex-typed number (an element of a complex array of steps): still real time
+                                dt = complex(tau, 0.0)
+                                detail["complex_typed_real_step"] = True
                             if scheme == "tdvp_ps":
                                 with SweepRecorder(cur, node_index) as rec:
                                     new = cur.evolve(ttno, dt)
